@@ -14,7 +14,7 @@ CHUNK = 4
 RULE = ("8 function/gradient pairs x dimensions 1..12 (2.. for Rosenbrock, Beale) x lattice "
         "points: ALL of V^n for n<=3 (quick) / n<=4 (thorough), V = 9 non-integer, "
         "non-half-integer values in [-5,5] away from 0, and 27 cyclic patterns of V for "
-        "larger n, plus for n>=2 the points with one or two coordinates exactly 0.0 (3 patterns per position), each point passed as a fresh ndarray, through one work array overwritten in "
+        "larger n, plus points with one coordinate within 3e-6 (relative) of an integer or half-integer, plus for n>=2 the points with one or two coordinates exactly 0.0 (3 patterns per position), each point passed as a fresh ndarray, through one work array overwritten in "
         "place, as a list and as a tuple; oracle: 6th-order central differences of the package's own function "
         "(h=1e-3) agree within 1e-7 relative, gradient has the shape of x, function returns "
         "a real scalar; non-trivial = point with at least two distinct coordinates (or n=1); "
@@ -62,6 +62,14 @@ def points(case):
                     x = np.array([vv[(i + 2 * j) % 9] for j in range(n)])
                     x[i] = z
                     yield x
+    # letter: a coordinate a hair away from a special value of the trigonometric terms
+    # (integers and half-integers, relative distance 3e-6)
+    for i in range(n):
+        for kk in (3.0, -4.0, 1.5, -2.5):
+            for o in (1, 5):
+                x = np.array([vv[(o + 2 * j) % 9] for j in range(n)])
+                x[i] = kk * (1.0 + 3e-6)
+                yield x
     if n >= 2:
         # letter: some (not all) coordinates exactly 0.0 - regular points of all eight
         # functions lying on coordinate hyperplanes
